@@ -162,6 +162,36 @@ Theorem tan_power_loss_keeps_claims : forall img us m,
 Proof. exact tan_power_loss_keeps_claims_proved. Qed.
 Print Assumptions tan_power_loss_keeps_claims.
 
+(* the same for a BATCH of updates of several replicas saved by one SaveRaftState call on one
+   multiplexed log (concurrentSaveState): if any update of the batch changes a claim of its
+   replica, the call fsyncs. How the per-update decisions are carried over the loop is
+   GENERATED ([tan_mux_sync_accumulates], [tan_mux_sync_after_batch]): "the last update
+   decides" breaks this theorem. *)
+Theorem tan_batch_claim_change_requires_sync : forall m us m' s,
+  minv m -> forallb state_wf us = true -> tan_mux_save m us = (m', s) ->
+  (exists k, ~ same_claims (td_written (m' k)) (td_written (m k))) -> s = true.
+Proof. exact tan_batch_claim_change_requires_sync_proved. Qed.
+Print Assumptions tan_batch_claim_change_requires_sync.
+
+(* power loss after any sequence of acknowledged SaveRaftState batches, multiplexed and
+   regular Tan, every replica of the host *)
+Theorem tan_batches_power_loss_keeps_claims : forall (imgs : key -> image) batches k msg,
+  forallb (forallb state_wf) batches = true ->
+  covers (td_synced (tan_mux_run (fun k => tan_open (imgs k)) batches k)) msg =
+  covers (td_written (tan_mux_run (fun k => tan_open (imgs k)) batches k)) msg /\
+  covers (td_synced (tan_seq_run (fun k => tan_open (imgs k)) batches k)) msg =
+  covers (td_written (tan_seq_run (fun k => tan_open (imgs k)) batches k)) msg.
+Proof. exact tan_batches_power_loss_keeps_claims_proved. Qed.
+Print Assumptions tan_batches_power_loss_keeps_claims.
+
+(* tan's rebuildLog (repair of a torn log tail on restart): at every instant of its GENERATED
+   epilogue the replacement file is fsynced before it can take the place of the log, so a
+   second power cut keeps every acknowledged record *)
+Theorem rebuild_every_cut_safe : forall n,
+  rebuild_safe (rebuild_run (firstn n tan_rebuild_log_steps)) = true.
+Proof. exact rebuild_every_cut_safe_proved. Qed.
+Print Assumptions rebuild_every_cut_safe.
+
 (* faithful to the code: a commit-only State change is NOT fsynced by Tan; the commit index may
    lag after power loss (no message of the property makes a claim about it) *)
 Theorem tan_commit_only_change_not_synced :
@@ -220,4 +250,14 @@ Example tan_vote_only_change_syncs :
   snd (tan_write (tan_open (mkImg 5 0 3 0 0 [])) (mkUpd 1 1 (mkHS 5 2 3) [] [] 0 0 [ex_vote] true)) = true /\
   snd (tan_write (tan_open (mkImg 5 2 3 0 0 [])) (mkUpd 1 1 (mkHS 5 2 4) [] [] 0 0 [] true)) = false /\
   snd (tan_write (tan_open (mkImg 5 2 3 0 0 [])) (mkUpd 1 1 (mkHS 6 0 3) [] [] 0 0 [] true)) = true.
+Proof. vm_compute. repeat split; reflexivity. Qed.
+
+(* a batch whose FIRST update carries the vote and whose last is commit-only must fsync; a
+   rebuild epilogue without the file sync is unsafe at the cut after the rename *)
+Example tan_batch_examples :
+  snd (tan_mux_save (fun k => tan_open (mkImg 4 0 1 0 0 [mkEnt 1 4]))
+         [mkUpd 1 1 (mkHS 4 2 1) [] [] 0 0 [] true; mkUpd 17 1 (mkHS 4 0 2) [] [] 0 0 [] true]) = true /\
+  snd (tan_mux_save (fun k => tan_open (mkImg 4 0 1 0 0 [mkEnt 1 4]))
+         [mkUpd 1 1 (mkHS 4 0 2) [] [] 0 0 [] true; mkUpd 17 1 (mkHS 4 0 2) [] [] 0 0 [] true]) = false /\
+  rebuild_safe (rebuild_run [RsCloseFile; RsRename]) = false.
 Proof. vm_compute. repeat split; reflexivity. Qed.
